@@ -470,6 +470,75 @@ let cmd_undo (args : string list) : string =
   | ["redo"; r] -> let s = Hashtbl.find ustates r in let (s', b) = redo s in Hashtbl.replace ustates r s'; "ok " ^ print_ustate s' ^ " | changed=" ^ pb b
   | _ -> "err badcmd"
 
+(* ---------- C19: value cells ---------- *)
+(* jany syntax: N U T F n<16hex> i<16hex> s<hex> x<hex> [a,b] {hexkey=a,...} ; cell syntax: tag:len:payload *)
+let parse_jany (s : string) : jany =
+  let n = String.length s in
+  let pos = ref 0 in
+  let peek () = if !pos < n then s.[!pos] else '\000' in
+  let adv () = incr pos in
+  let hexrun () = let st = !pos in while !pos < n && (match s.[!pos] with '0'..'9' | 'a'..'f' -> true | _ -> false) do incr pos done; String.sub s st (!pos - st) in
+  let rec value () : jany =
+    match peek () with
+    | 'N' -> adv (); JNull
+    | 'U' -> adv (); JUndefined
+    | 'T' -> adv (); JBool true
+    | 'F' -> adv (); JBool false
+    | 'n' -> adv (); JNumber (n_of_hex (hexrun ()))
+    | 'i' -> adv (); JBigInt (n_of_hex (hexrun ()))
+    | 's' -> adv (); JString (bytes_of_hex (hexrun ()))
+    | 'x' -> adv (); JBuffer (bytes_of_hex (hexrun ()))
+    | '[' -> adv ();
+      let items = ref [] in
+      if peek () = ']' then adv () else begin
+        let continue = ref true in
+        while !continue do
+          items := value () :: !items;
+          (match peek () with ',' -> adv () | ']' -> adv (); continue := false | _ -> failwith "bad array")
+        done end;
+      JArray (List.rev !items)
+    | '{' -> adv ();
+      let items = ref [] in
+      if peek () = '}' then adv () else begin
+        let continue = ref true in
+        while !continue do
+          let k = bytes_of_hex (hexrun ()) in
+          if peek () <> '=' then failwith "bad map"; adv ();
+          let v = value () in
+          items := (k, v) :: !items;
+          (match peek () with ',' -> adv () | '}' -> adv (); continue := false | _ -> failwith "bad map")
+        done end;
+      JMap (List.rev !items)
+    | _ -> failwith "bad jany" in
+  value ()
+let hex16 (x : n) : string = let h = hex_of_n x in String.make (max 0 (16 - String.length h)) '0' ^ h
+let rec print_cell (c : cell) : string =
+  match c with
+  | Cell (tag, len, p) ->
+    Printf.sprintf "%s:%d:%s" (str_of_z tag) (int_of_n len)
+      (match p with
+       | PNone -> "-"
+       | PFlag b -> "b" ^ string_of_int (int_of_n b)
+       | PNum x -> "n" ^ hex16 x
+       | PInt x -> "i" ^ hex16 x
+       | PStr s0 -> "s" ^ rawhex s0
+       | PBuf b -> "x" ^ rawhex b
+       | PArr l -> "[" ^ String.concat "," (List.map print_cell l) ^ "]"
+       | PMap l -> "{" ^ String.concat "," (List.map (fun (k, v) -> rawhex k ^ "=" ^ print_cell v) l) ^ "}")
+let rec print_jany (a : jany) : string =
+  match a with
+  | JNull -> "N" | JUndefined -> "U" | JBool true -> "T" | JBool false -> "F"
+  | JNumber x -> "n" ^ hex16 x | JBigInt x -> "i" ^ hex16 x
+  | JString s0 -> "s" ^ rawhex s0 | JBuffer b -> "x" ^ rawhex b
+  | JArray l -> "[" ^ String.concat "," (List.map print_jany l) ^ "]"
+  | JMap l -> "{" ^ String.concat "," (List.map (fun (k, v) -> rawhex k ^ "=" ^ print_jany v) l) ^ "}"
+let cmd_cell (args : string list) : string =
+  match args with
+  | [v] -> "ok " ^ print_cell (output_of (parse_jany v))
+  | ["in"; v] -> (match into_any (input_of (parse_jany v)) with Some a -> "ok " ^ print_jany a | None -> "panic")
+  | ["back"; v] -> (match read_back (output_of (parse_jany v)) with Some a -> "ok " ^ print_jany a | None -> "null")
+  | _ -> "err badcmd"
+
 let dispatch (line : string) : string =
   match String.split_on_char ' ' (String.trim line) with
   | "R" :: args -> cmd_ranges args
@@ -477,6 +546,7 @@ let dispatch (line : string) : string =
   | "A" :: args -> cmd_aw args
   | "EV" :: args -> cmd_ev args
   | "U" :: args -> cmd_undo args
+  | "CELL" :: args -> cmd_cell args
   | "DEC" :: args -> cmd_dec args
   | "ENC" :: args -> cmd_enc args
   | ["PING"] -> "ok pong"
